@@ -138,7 +138,7 @@ def check_mt(item, acc):
         return m, u, w, L, fac
 
     try:
-        for script, res, ch, pruned in acc.explore(run, max_dev=None if full_perm else D_dev):
+        for script, res, ch, pruned in acc.explore(run, label=item, max_dev=None if full_perm else D_dev):
             acc.evaluations += 1
             m, u, w, L, fac = res
             ws = dict(wit, script=list(script))
@@ -284,7 +284,7 @@ def hypergraphs(tier):
     cands = [c for r in (2, 3) for c in itertools.combinations(L4, r)]
     two = list(itertools.combinations(cands, 2))
     three = list(itertools.combinations(cands, 3))
-    sel = two[:: (16 if tier == "quick" else 3)] + three[:: (90 if tier == "quick" else 8)]
+    sel = two[:: (16 if tier == "quick" else 6)] + three[:: (90 if tier == "quick" else 30)]
     out = []
     for es in sel:
         used = {v for e in es for v in e}
@@ -310,8 +310,11 @@ def items(tier):
                 if n <= 4:
                     yield ("mt", (es, wts, iso, 2, normU, 1, 1, minpar, True, 0))  # every update order, 1 EM iteration
                     if tier != "quick" or (normU is False and minpar == 0):
-                        yield ("mt", (es, wts, iso, 2, normU, 1, 2, minpar, n <= 3, 1))
-                yield ("mt", (es, wts, iso, 2, normU, 2, 3, minpar, False, 1 if tier == "quick" else 2))  # <= D non-identity orders among all iterations
+                        # thorough: every pair of update orders (24 x 24) for the unconstrained, untruncated configuration
+                        yield ("mt", (es, wts, iso, 2, normU, 1, 2, minpar, n <= 3 or (tier != "quick" and normU is False and minpar == 0), 1))
+                yield ("mt", (es, wts, iso, 2, normU, 2, 3, minpar, False, 1))  # <= D deviations (non-identity update orders, menu entries) among all iterations
+                if tier != "quick" and es in [h[0] for h in hypergraphs(tier)[:2]] and not normU:
+                    yield ("mt", (es, wts, iso, 2, normU, 1, 2, minpar, False, 2))
         for seed in (0, 1, 2):
             yield ("real", (es, wts, iso, 2, seed))
         if tier != "quick":
@@ -330,7 +333,7 @@ def run(ctx):
     its = list(items(ctx.tier))
     k = ctx.jobs * 8
     shards = [its[i::k] for i in range(k)]
-    ev, nt, oc = run_e4(ctx, [it for s in shards for it in s], worker, nchunks=k, budget=4000000 if ctx.tier == "quick" else 80000000, config_cap=12000 if ctx.tier == "quick" else 240000)
+    ev, nt, oc = run_e4(ctx, [it for s in shards for it in s], worker, nchunks=k, budget=4000000 if ctx.tier == "quick" else 80000000, config_cap=12000 if ctx.tier == "quick" else 40000)
     ctx.part("inputs", executions=ev, scripted_configurations=sum(1 for kd, _ in its if kd == "mt"), real_generator_inputs=sum(1 for kd, _ in its if kd == "real"))
     ctx.require(len(its) > 50, "corpus too small")
     it = [x for x in its if x[0] == "mt"][(ctx.seed * 7 + 3) % sum(1 for kd, _ in its if kd == "mt")][1]
